@@ -12,11 +12,11 @@ RULES_OF = {
     "C01": {"use-before-def", "topological", "complete", "unknown-statement"},
     "C02": None,   # every rule, backend c
     "C03": None,   # every rule, backend jax
-    "C04": {"unpack-slot", "store-slot", "store-twice", "lengths-stored", "lengths-returned", "store-before-alloc", "layout-from-sort"},
+    "C04": {"unpack-slot", "store-slot", "store-twice", "lengths-stored", "lengths-returned", "store-before-alloc", "layout-from-sort", "return-order"},
     "C05": {"store-slot", "store-twice", "lengths-stored"},
     "C07": {"scheme-choice", "store-slot"},
     "C12": {"use-before-def", "unpack-slot", "store-slot", "lengths-stored", "lengths-returned", "topological", "complete", "layout-from-sort"},
-    "C13": {"unpack-slot", "store-slot", "use-before-def", "lengths-stored", "lengths-returned"},
+    "C13": {"unpack-slot", "store-slot", "use-before-def", "lengths-stored", "lengths-returned", "return-order"},
     "C19": {"redefinition"},
 }
 BACKENDS_OF = {"C02": ("c",), "C03": ("jax",), "C01": ("python",), "C05": ("python", "jax", "c")}
